@@ -23,10 +23,11 @@
        buffers (8 and 32 bytes), the bufio buffer and string(b) copies are not
        counted; they are bounded by a constant resp. by a constant factor.
 
-   [version] selects the code as it is now ([Fixed]) or the element-size
-   handling before commit "fix: decoders validate element sizes ..."
-   ([PreFix]); the latter exists only so that the refuted examples of C19 can
-   be stated.  Everything else uses [Fixed].
+   [version] selects the code as it is now ([Fixed]) or as it was before the
+   commits "fix: decoders validate element sizes ..." (element-size handling,
+   here) and "fix: index reader rejects decreasing chunk offsets ..." (offset
+   check, Model/Index.v) ([PreFix]); the latter exists only so that the refuted
+   examples of C19 and C04 can be stated.  Everything else uses [Fixed].
 
    Not modelled here: os.FileMode conversion.  [Entry] keeps the raw 64-bit mode
    word of the stream (Go: StatModeToFilemode(uint32(mode)) when decoding,
@@ -50,6 +51,7 @@ Inductive err :=
 | DigestMismatch    (* "index file uses SHA256" / "... SHA512-256" *)
 | NoTable           (* "index table not found in input" *)
 | ChunkTooLarge     (* "chunk size %d is larger than maximum %d" *)
+| DecreasingOffset  (* "chunk offset %d is smaller than the preceding offset %d" *)
 | TooShort          (* protocol: "message length too short" *)
 | OutOfFuel.        (* model artefact; shown unreachable *)
 
